@@ -153,7 +153,8 @@ var knownIssueTags = []issueTag{
 	// C02-5: the result of textureLoad on a texture_*<i32> is typed vec4<f32> by the lowerer: arithmetic on it is
 	// emitted with float opcodes / float result types on the vec4<i32> the OpImageFetch produces
 	{"c02.texture-i32.load-typed-f32", func(i spv.Issue, c *Case, m *spv.Module) bool {
-		if !strings.Contains(i.Msg, "f32") || i.Inst < 0 || i.Inst >= len(m.Insts) {
+		if i.Inst < 0 || i.Inst >= len(m.Insts) || !(strings.HasPrefix(i.Rule, "type.") || i.Rule == "composite.shape" || i.Rule == "extinst.types" ||
+			i.Rule == "mem.store-type" || i.Rule == "call.signature" || i.Rule == "return.type" || i.Rule == "phi.type") {
 			return false
 		}
 		// the offending instruction computes (within a few steps) on the result of an image instruction
